@@ -103,6 +103,108 @@ def task_helper(m, tier, seed):
     return part.d
 
 
+FP_MAIN = r"""
+int main(int argc, char** argv) {
+  vsym::init(argv[1]);
+  constexpr int M = MDIM;
+  S k = vsym::in("k");
+  S n = vsym::in("n");
+  // innovation e_1 and S^-1 = diag(n, 0, ...): the quadratic form is exactly n in floating point too
+  Eigen::Matrix<S, M, 1> z = Eigen::Matrix<S, M, 1>::Zero();
+  Eigen::Matrix<S, M, M> Sinv = Eigen::Matrix<S, M, M>::Zero();
+  z(0, 0) = S(1.0);
+  Sinv(0, 0) = n;
+  bool removed = formak::innovation_filtering::edit::removeInnovation<M>(k, z, Sinv);
+  vsym::out("removed", S(removed ? 1.0 : 0.0));
+  vsym::finish();
+}
+"""
+
+
+def fp_helper_concrete(m, kk, n):
+    d = build.workdir("c06f")
+    try:
+        exe = build.compile_driver(d, FP_MAIN, concrete=True, extra_flags=[f"-DMDIM={m}"], name="fp")
+        outs, _, _ = build.run_concrete(exe, d, {"k": kk, "n": n})
+    finally:
+        build.cleanup(d)
+    return outs["removed"] == 1.0
+
+
+def task_helper_fp(m, tier, seed):
+    """Boundary clause in IEEE-754 double arithmetic (QF_FP): for every finite NIS value n and threshold k the C++
+    helper decides exactly fl(n) > fl(fl(k*sqrt(2m)) + m), i.e. what the documented formula gives in doubles - also
+    *at* and within an ulp of the boundary, where a real-arithmetic encoding cannot tell two algebraically
+    equivalent rearrangements apart."""
+    part = Part()
+    part.program("innovation_filtering.h")
+    part.fn("formak::innovation_filtering::edit::removeInnovation (binary64 semantics)")
+    key_base = f"cpp/removeInnovation/fp/m={m}"
+    d = build.workdir("c06f")
+    try:
+        try:
+            exe = build.compile_driver(d, FP_MAIN, extra_flags=[f"-DMDIM={m}", "-DVSYM_FP"], name="fp")
+        except build.BuildError as ex:
+            part.harness_error(f"{key_base}: build failed: {ex.log[-600:]}")
+            return part.d
+        leaves, _ = build.run_symbolic(exe, d, "fp", fp=True)
+    finally:
+        build.cleanup(d)
+    F = z3.Float64()
+    k, n = z3.FP("k", F), z3.FP("n", F)
+    rm = z3.RNE()
+    c = z3.FPVal(math.sqrt(2 * m), F)
+    spec = z3.fpGT(n, z3.fpAdd(rm, z3.fpMul(rm, k, c), z3.FPVal(float(m), F)))
+    rng_ok = [z3.Not(z3.fpIsNaN(k)), z3.Not(z3.fpIsInf(k)), z3.Not(z3.fpIsNaN(n)), z3.Not(z3.fpIsInf(n)), z3.fpGT(k, z3.FPVal(0.0, F)), z3.fpLEQ(k, z3.FPVal(1024.0, F)), z3.fpGEQ(n, z3.FPVal(0.0, F)), z3.fpLEQ(n, z3.FPVal(1048576.0, F))]
+    rej = [l for l in leaves if z3.simplify(l.out["removed"]).eq(z3.FPVal(1.0, F)) or str(z3.simplify(l.out["removed"])) in ("1", "1.0")]
+    if not rej:
+        rej = [l for l in leaves if "1" in str(z3.simplify(l.out["removed"]))[:4] and l.decisions.endswith("T")]
+    cond = z3.Or(*[l.pc_term() for l in rej]) if rej else z3.BoolVal(False)
+    part.d["paths"]["leaves"] += len(leaves)
+    s_ = z3.Solver()
+    s_.set("timeout", 120000 if tier == "quick" else 600000)
+    s_.add(*rng_ok)
+    s_.add(cond != spec)
+    import time as _t
+
+    t0 = _t.time()
+    r = s_.check()
+    q = Q(str(r) if str(r) in ("sat", "unsat") else "unknown", None, _t.time() - t0, "")
+    part.record(q, f"{key_base}: decision == (n > fl(fl(k*sqrt(2m)) + m)) for all finite doubles 0 <= n <= 2^20, 0 < k <= 1024 (QF_FP)")
+    if r == z3.sat:
+        mdl = s_.model()
+
+        def fv(x):
+            v = mdl.eval(x, model_completion=True)
+            return float(eval(str(z3.simplify(z3.fpToReal(v))).replace("?", ""))) if False else float(v.as_string()) if hasattr(v, "as_string") and "nan" not in v.as_string().lower() else float("nan")
+
+        try:
+            kk = float(mdl.eval(k, model_completion=True).as_decimal(40).replace("?", ""))
+            nn = float(mdl.eval(n, model_completion=True).as_decimal(40).replace("?", ""))
+        except Exception:
+            kk = nn = None
+        # exact doubles from the bit patterns
+        try:
+            import struct
+
+            kk = struct.unpack("<d", struct.pack("<Q", mdl.eval(z3.fpToIEEEBV(k), model_completion=True).as_long()))[0]
+            nn = struct.unpack("<d", struct.pack("<Q", mdl.eval(z3.fpToIEEEBV(n), model_completion=True).as_long()))[0]
+        except Exception:
+            pass
+        part.d["witnesses"] += 1
+        got = fp_helper_concrete(m, kk, nn)
+        want = bool(nn > kk * math.sqrt(2 * m) + m)
+        if got != want:
+            path = write_replay(PID, {"key": key_base, "info": {"kind": "cpp-helper-fp", "m": m}, "inputs": {"k": kk, "n": nn}, "got": got, "want": want})
+            part.violation(key_base, f"C++ removeInnovation<{m}> returns {got} for NIS={nn!r}, k={kk!r}, but NIS > k*sqrt(2m)+m evaluates to {want} in double arithmetic (boundary within an ulp)", path)
+        else:
+            part.d["inconclusive"].append(key_base + ": FP counterexample did not reproduce")
+    if not rej or len(rej) == len(leaves):
+        part.harness_error(f"{key_base}: vacuity: reject/accept leaves {len(rej)}/{len(leaves) - len(rej)}")
+    part.sample({"impl": "c++ helper, binary64", "m": m, "leaves": len(leaves)})
+    return part.d
+
+
 def task_generated(p, key, k, tier, seed):
     """(v) generated sensor_model: reject leaf <=> specification, outputs = inputs; disabled -> no reject leaf.
     Also (python decision == generated C++ decision) through the shared specification."""
@@ -216,6 +318,7 @@ def task_generated(p, key, k, tier, seed):
 def tasks(tier, seed):
     ms = [1, 2, 3] if tier == "quick" else [1, 2, 3, 4, 8]
     t = [(task_helper, (m, tier, seed)) for m in ms]
+    t += [(task_helper_fp, (m, tier, seed)) for m in ([2, 3, 5] if tier == "quick" else [1, 2, 3, 4, 5, 6, 8])]
     if tier == "quick":
         t += [(task_generated, (CP.P3(), "two", 3.0, tier, seed)), (task_generated, (CP.P3(), "one", None, tier, seed)), (task_generated, (CP.P8(), "wide", 5.0, tier, seed))]
     else:
@@ -230,6 +333,13 @@ def replay(r):
     from .c06 import float_decision_spec
 
     info = r["info"]
+    if info["kind"] == "cpp-helper-fp":
+        i = r["inputs"]
+        got = fp_helper_concrete(info["m"], i["k"], i["n"])
+        want = bool(i["n"] > i["k"] * math.sqrt(2 * info["m"]) + info["m"])
+        print("impl", got, "double-arithmetic spec", want)
+        print("REPRODUCED" if got != want else "not reproduced")
+        return 1 if got != want else 0
     if info["kind"] == "cpp-helper":
         i = r["inputs"]
         got = helper_concrete(info["m"], i["k"], i["z"], i["S_inv"])
